@@ -2,6 +2,7 @@
 // Oracle: ref/stream.hpp (block-at-a-time models with integer counters).
 #include "vh_main.hpp"
 #include "stream.hpp"
+#include "giant.hpp"
 #include <sys/wait.h>
 using namespace vh;
 
@@ -224,6 +225,51 @@ void explore_long(Ctx &ctx) {
     }
 }
 
+// ------------------------------------------------------------------ requests of 4 GiB and more (thorough tier, non-sanitizer build)
+// One call writes 2^32 + 71 bytes (for the IETF variant: 2^32 + 71 as well, 2^26 + 2 blocks) in place over a zero buffer, so the output is
+// the keystream; windows of it at the start, around byte 2^32 and at the end are compared with the model's blocks for those positions.
+struct GiantCase {
+    int cipher, form; size_t len; uint64_t ic; unsigned long mask;
+    KV kv() const { KV k; k.s("kind", "giant").s("cipher", CN[cipher]).u("cipheri", cipher).s("form", FN[form]).u("formi", form).u("len", len).u("ic", ic).u("mask", mask); return k; }
+};
+uint64_t g_giant_skipped = 0;
+bool run_giant(const GiantCase &c, std::string &msg) {
+    set_mask(c.mask);
+    if (!giant::have_memory(c.len)) { g_giant_skipped++; return true; }
+    giant::Map M(c.len); if (!M.ok()) { g_giant_skipped++; return true; }
+    Bytes key(32), nonce(NONCE[c.cipher]); for (size_t i = 0; i < 32; i++) key[i] = (uint8_t) (i * 11 + 3 + (size_t) c.cipher); for (size_t i = 0; i < nonce.size(); i++) nonce[i] = (uint8_t) (0xc0 + i);
+    Case cc{ c.cipher, c.form, key, nonce, Bytes(), c.ic, c.len, c.mask, 0 };
+    int r = lib_call(cc, M.p, M.p, nonce.data(), key.data());
+    if (r != 0) { msg = std::string(CN[c.cipher]) + " " + FN[c.form] + " over " + std::to_string(c.len) + " bytes returned " + std::to_string(r); return false; }
+    const uint64_t G = (uint64_t) 1 << 32;
+    std::vector<uint64_t> wins = { 0, 64, G - 192, G - 64, G, G + 64, (c.len - 1) / 64 * 64, ((c.len - 1) / 64 - 1) * 64, c.len / 2 / 64 * 64 };
+    for (uint64_t w : wins) {
+        if (w >= c.len) continue;
+        size_t n = (size_t) std::min<uint64_t>(128, c.len - w);
+        Case wc{ c.cipher, XOR_IC, key, nonce, Bytes(), c.ic + w / 64, n, c.mask, 0 };
+        ref::Bytes ks = model_stream(wc);
+        if (memcmp(M.p + w, ks.data(), n) != 0) {
+            size_t i = 0; while (i < n && M.p[w + i] == ks[i]) i++;
+            char b[300]; snprintf(b, sizeof b, "%s %s over %zu bytes (initial counter %llu): output differs from the specification at byte %llu (block %llu): got %02x, keystream byte %02x", CN[c.cipher], FN[c.form], c.len, (unsigned long long) c.ic, (unsigned long long) (w + i), (unsigned long long) ((w + i) / 64), M.p[w + i], ks[i]);
+            msg = b; return false;
+        }
+    }
+    return true;
+}
+void explore_giant(Ctx &ctx) {
+    if (!ctx.thorough() || !giant::fast_build() || !giant::first_round()) { ctx.notes["giant_requests"] = "thorough tier, non-sanitizer build, first round only"; return; }
+    auto masks = masks_for_streams();
+    uint64_t idx = 0;
+    for (int ci = 0; ci < NCIPH; ci++) for (int form : { STREAM, XOR, XOR_IC }) {
+        if (form == XOR_IC && !has_ic(ci)) continue;
+        uint64_t k = idx++;
+        if (ctx.worker != (int) (k % (uint64_t) std::min(ctx.nworkers, 2))) continue;      // two 4 GiB buffers at a time at most
+        GiantCase c{ ci, form, ((size_t) 1 << 32) + 71, form == XOR_IC ? (ci == CHACHA20_IETF ? (uint64_t) 12345 : ((uint64_t) 7 << 32) + 0xfffff000ULL) : 0, masks[(size_t) k % masks.size()] };
+        exec_case(ctx, c, run_giant, mix64(mix64(ci, form), c.mask), true);
+    }
+    ctx.notes["giant_requests_skipped_no_memory"] = std::to_string(g_giant_skipped);
+}
+
 // ------------------------------------------------------------------ IETF counter overflow must hit the misuse handler
 struct MisuseCase {
     uint64_t ic; size_t len; unsigned long mask;
@@ -314,6 +360,7 @@ void explore_core(Ctx &ctx) {
 
 bool replay(const KV &k, std::string &msg) {
     if (k.gs("kind") == "ietf_misuse") { MisuseCase c{ k.gu("ic"), (size_t) k.gu("len"), (unsigned long) k.gu("mask") }; c.form = k.has("form") ? (int) k.gu("form") : 0; return run_misuse(c, msg); }
+    if (k.gs("kind") == "giant") { GiantCase c{ (int) k.gu("cipheri"), (int) k.gu("formi"), (size_t) k.gu("len"), k.gu("ic"), (unsigned long) k.gu("mask") }; return run_giant(c, msg); }
     if (k.gs("kind") == "core") { CoreCase c{ (int) k.gu("which"), k.gb("in"), k.gb("key"), k.gb("const"), k.gu("use_const") != 0 }; return run_core(c, msg); }
     Case c = Case::from(k); return run(c, msg);
 }
@@ -325,6 +372,7 @@ std::vector<Sub> vh_subs() {
         { "lengths", explore_lengths, replay },
         { "counters", explore_counters, replay },
         { "long_requests", explore_long, replay },
+        { "giant_requests", explore_giant, replay },
         { "ietf_misuse", explore_misuse, replay },
         { "core", explore_core, replay },
     };
